@@ -833,9 +833,11 @@ namespace ip {
 			}
 			case aux::packet::type_t::syn_ack:
 			{
-				assert(m_connect_handler);
+				// the connect may have been cancelled while the SYN+ACK was
+				// on its way; its handler has run with operation_aborted then
 				boost::system::error_code ec;
-				post(m_io_service, aux::make_malloc(std::bind(std::move(m_connect_handler), ec)));
+				if (m_connect_handler)
+					post(m_io_service, aux::make_malloc(std::bind(std::move(m_connect_handler), ec)));
 				m_connect_handler = nullptr;
 				if (ec) m_channel.reset();
 				else maybe_wakeup_writer();
